@@ -28,6 +28,10 @@ def b_len(I, args, kwargs):
 
 def b_any(I, args, kwargs):
     v = I.force(args[0])
+    if isinstance(v, IntersectsGen):
+        return Sym(ops.intersects(v.s, v.charset), "bool")
+    if isinstance(v, ops.CtorGen):
+        return Sym(v.any_term(), "bool")
     if isinstance(v, Sym) and v.kind == "seq" and v.elem == "bool":
         return Sym(z3.Contains(v.t, z3.Unit(z3.BoolVal(True))), "bool")
     items = ops.iterate(I, v, None)
@@ -91,6 +95,10 @@ def b_set(I, args, kwargs):
 
 
 def b_frozenset(I, args, kwargs):
+    if args:
+        v = I.force(args[0])
+        if isinstance(v, Sym) and v.kind == "str":
+            return CharSet(v.t)
     return frozenset(b_set(I, args, kwargs))
 
 
